@@ -208,4 +208,37 @@ theorem lexAll_lex (inp : Bytes) (hA : Ascii inp) (hb : BlocksOK (inp.length + 1
     LexAgree (lexAll inp) (Spec.lex inp) :=
   lexFuel_lexGo _ inp Cur.init 0 [] [] _ hA (Nat.le_refl _) (Nat.le_refl _) rfl hb rfl
 
+/-- the text contains no three consecutive quotes (so no block string at all) -/
+def NoTripleQuote : Bytes → Bool
+  | [] => true
+  | b :: t => (match b :: t with
+      | 34 :: 34 :: 34 :: _ => false
+      | _ => true) && NoTripleQuote t
+
+theorem NoTripleQuote_drop (n : Nat) : ∀ l : Bytes, NoTripleQuote l = true → NoTripleQuote (l.drop n) = true := by
+  induction n with
+  | zero => intro l h; simpa using h
+  | succ n ih =>
+    intro l h
+    cases l with
+    | nil => simpa using h
+    | cons b t =>
+      simp only [NoTripleQuote, Bool.and_eq_true] at h
+      simpa using ih t h.2
+
+theorem BlocksOK_of_noTriple (g : Nat) : ∀ l : Bytes, NoTripleQuote l = true → BlocksOK g l = true := by
+  induction g with
+  | zero => intro l _; rfl
+  | succ g ih =>
+    intro l h
+    simp only [BlocksOK, Bool.and_eq_true]
+    constructor
+    · split
+      · simp [NoTripleQuote] at h
+      · rfl
+    · split
+      · exact ih _ (NoTripleQuote_drop _ l h)
+      · exact ih _ (NoTripleQuote_drop _ l h)
+      · rfl
+
 end Gql.Lexer
